@@ -917,9 +917,9 @@ func (i *interpreter) concInt(v value, kind string) int64 {
 // mapOrder: Go leaves the iteration order of maps unspecified.  By default
 // the engine iterates in insertion order; a harness may ask (vMapOrder)
 // for the start position to become a decision (rotations, like the
-// runtime's random start bucket), for maps of 2..4 entries.
+// runtime's random start bucket), for maps of 2..6 entries.
 func (i *interpreter) mapOrder(live []*oentry) []*oentry {
-	if !i.env.mapOrderNondet || i.path == nil || len(live) < 2 || len(live) > 4 {
+	if !i.env.mapOrderNondet || i.path == nil || len(live) < 2 || len(live) > 6 {
 		return live
 	}
 	r := i.path.choose(len(live), "maporder")
